@@ -10,6 +10,7 @@ import (
 	"errors"
 	"fmt"
 	"net"
+	"sort"
 	"strings"
 	"sync"
 	"sync/atomic"
@@ -146,10 +147,16 @@ type opResult struct {
 	cancelled         atomic.Bool
 	inProgress        atomic.Bool
 	cancelWhen        string
+	seq               int64       // order of return among the operations of the run
+	task              *sched.Task // the task that issues it
 }
 
 type dirPlan struct {
 	writes, reads []opPlan
+	// wsplit/rsplit > 0: the operations from that index on are issued by a SECOND task on the
+	// same end, concurrently with the first ones (the wrappers serialise the operations of one
+	// kind: one is inside, the others wait for their turn)
+	wsplit, rsplit int
 }
 
 type scenario struct {
@@ -168,6 +175,9 @@ func (sc scenario) String() string {
 		b.WriteString("r:")
 		for _, o := range dp.reads {
 			fmt.Fprintf(&b, "%d/%s ", o.size, ctxNames[o.ctx])
+		}
+		if dp.wsplit > 0 || dp.rsplit > 0 {
+			fmt.Fprintf(&b, "second-task:w%d,r%d", dp.wsplit, dp.rsplit)
 		}
 		b.WriteString("}")
 	}
@@ -201,7 +211,36 @@ func genScenario(t *rapid.T) scenario {
 			}
 			dp.reads = append(dp.reads, opPlan{sz, genCtx()})
 		}
+		if rapid.IntRange(0, 3).Draw(t, "second") == 0 {
+			if len(dp.writes) > 1 && rapid.Bool().Draw(t, "wsecond") {
+				dp.wsplit = rapid.IntRange(1, len(dp.writes)-1).Draw(t, "wsplit")
+			}
+			if len(dp.reads) > 1 {
+				dp.rsplit = rapid.IntRange(1, len(dp.reads)-1).Draw(t, "rsplit")
+			}
+		}
 		sc.dirs = append(sc.dirs, dp)
+	}
+	if rapid.IntRange(0, 11).Draw(t, "queue") == 0 {
+		// an operation waits for its turn behind a parked one and is cancelled there; the
+		// parked one is then served and the task that issued it goes on: a live read (write),
+		// a cancelled read (write) of a second task, then more live ones
+		sc.dirs = sc.dirs[:1]
+		live := func(n int) opPlan { return opPlan{n, ctxLive} }
+		if rapid.Bool().Draw(t, "queueReads") {
+			sc.dirs[0] = dirPlan{
+				writes: []opPlan{live(rapid.IntRange(1, 40).Draw(t, "q1")), live(rapid.IntRange(1, 40).Draw(t, "q2"))},
+				reads:  []opPlan{live(64), live(64), {64, ctxCancelledByTask}},
+				rsplit: 2,
+			}
+		} else {
+			sc.dirs[0] = dirPlan{
+				writes: []opPlan{live(rapid.IntRange(1, 40).Draw(t, "q1")), live(rapid.IntRange(1, 40).Draw(t, "q2")), {rapid.IntRange(1, 40).Draw(t, "q3"), ctxCancelledByTask}},
+				reads:  []opPlan{live(64), live(64)},
+				wsplit: 2,
+			}
+		}
+		return sc
 	}
 	if rapid.IntRange(0, 5).Draw(t, "focus") == 0 {
 		// nothing but one operation whose context is cancelled by a task, its watcher and
@@ -218,6 +257,7 @@ func genScenario(t *rapid.T) scenario {
 			sc.dirs[0].reads = []opPlan{{rapid.IntRange(1, 64).Draw(t, "fbuf"), ctxCancelledByTask}}
 			sc.dirs[0].writes = nil
 		}
+		sc.dirs[0].wsplit, sc.dirs[0].rsplit = 0, 0
 	}
 	return sc
 }
@@ -238,6 +278,10 @@ func run(sc scenario, ch sched.Chooser, c *ev.Case, logf func(string, ...any)) (
 		}
 	}
 	s := sched.New()
+	// the terminal state is confirmed by two whole-process snapshots: a goroutine of the
+	// wrappers that is not a task (and so invisible to the task table) but still on its way
+	// keeps the run going
+	s.QuiesceGap = 300 * time.Microsecond
 	install(s)
 	rawA, rawB := net.Pipe()
 	recA, recB := &recConn{Conn: rawA}, &recConn{Conn: rawB}
@@ -253,9 +297,8 @@ func run(sc scenario, ch sched.Chooser, c *ev.Case, logf func(string, ...any)) (
 	}()
 	type dirState struct {
 		wres, rres []*opResult
-		wtask      *sched.Task
-		rtask      *sched.Task
 	}
+	var returns atomic.Int64
 	ds := make([]*dirState, len(sc.dirs))
 	mkCtx := func(kind int) (context.Context, context.CancelFunc) {
 		switch kind {
@@ -321,37 +364,65 @@ func run(sc scenario, ch sched.Chooser, c *ev.Case, logf func(string, ...any)) (
 		for _, p := range rp {
 			st.rres = append(st.rres, p.res)
 		}
-		st.wtask = s.Go(fmt.Sprintf("writer%d", d), func() {
-			for i, o := range dp.writes {
-				p := wp[i]
-				data := payload(d, i, o.size)
-				p.res.started = true
-				p.res.inProgress.Store(true)
-				n, err := wep.Write(p.ctx, data)
-				p.res.inProgress.Store(false)
-				p.res.n, p.res.err, p.res.ctxErr = n, err, p.ctx.Err()
-				if _, wd := wrec.deadlines(); !wd.IsZero() {
-					p.res.leftover = fmt.Sprintf("write deadline %v", wd)
+		writer := func(from, to int) func() {
+			return func() {
+				for i := from; i < to; i++ {
+					o := dp.writes[i]
+					p := wp[i]
+					data := payload(d, i, o.size)
+					p.res.started = true
+					p.res.inProgress.Store(true)
+					n, err := wep.Write(p.ctx, data)
+					p.res.inProgress.Store(false)
+					p.res.n, p.res.err, p.res.ctxErr = n, err, p.ctx.Err()
+					if _, wd := wrec.deadlines(); !wd.IsZero() {
+						p.res.leftover = fmt.Sprintf("write deadline %v", wd)
+					}
+					p.res.seq = returns.Add(1)
+					p.res.returned = true
 				}
-				p.res.returned = true
 			}
-		})
-		st.rtask = s.Go(fmt.Sprintf("reader%d", d), func() {
-			for i, o := range dp.reads {
-				p := rp[i]
-				buf := make([]byte, o.size)
-				p.res.started = true
-				p.res.inProgress.Store(true)
-				n, err := rep.Read(p.ctx, buf)
-				p.res.inProgress.Store(false)
-				p.res.n, p.res.err, p.res.ctxErr = n, err, p.ctx.Err()
-				p.res.data = append([]byte(nil), buf[:max(n, 0)]...)
-				if rd, _ := rrec.deadlines(); !rd.IsZero() {
-					p.res.leftover = fmt.Sprintf("read deadline %v", rd)
+		}
+		reader := func(from, to int) func() {
+			return func() {
+				for i := from; i < to; i++ {
+					o := dp.reads[i]
+					p := rp[i]
+					buf := make([]byte, o.size)
+					p.res.started = true
+					p.res.inProgress.Store(true)
+					n, err := rep.Read(p.ctx, buf)
+					p.res.inProgress.Store(false)
+					p.res.n, p.res.err, p.res.ctxErr = n, err, p.ctx.Err()
+					p.res.data = append([]byte(nil), buf[:max(n, 0)]...)
+					if rd, _ := rrec.deadlines(); !rd.IsZero() {
+						p.res.leftover = fmt.Sprintf("read deadline %v", rd)
+					}
+					p.res.seq = returns.Add(1)
+					p.res.returned = true
 				}
-				p.res.returned = true
 			}
-		})
+		}
+		spawn := func(name string, body func(from, to int) func(), res []*opResult, split int) {
+			if split <= 0 || split >= len(res) {
+				split = len(res)
+			}
+			t1 := s.Go(name, body(0, split))
+			for _, r := range res[:split] {
+				r.task = t1
+			}
+			if split < len(res) {
+				t2 := s.Go(name+"b", body(split, len(res)))
+				for _, r := range res[split:] {
+					r.task = t2
+				}
+				if c != nil {
+					c.Label("second-task-on-one-end")
+				}
+			}
+		}
+		spawn(fmt.Sprintf("writer%d", d), writer, st.wres, dp.wsplit)
+		spawn(fmt.Sprintf("reader%d", d), reader, st.rres, dp.rsplit)
 	}
 
 	s.Run(ch)
@@ -362,26 +433,54 @@ func run(sc scenario, ch sched.Chooser, c *ev.Case, logf func(string, ...any)) (
 		return ""
 	}
 	logf("terminal state:\n%s", s.Describe())
+	returnedNow := func() int64 { return returns.Load() }
+	atTerminal := returnedNow()
+	defer func() {
+		// a violation read off the terminal state must be a property of a state that stays as it
+		// is: if an operation returns while nobody is granted a step, the state was not terminal
+		// (the machine stood still while the snapshots were taken) and the run decides nothing
+		if msg != "" {
+			time.Sleep(20 * time.Millisecond)
+			if returnedNow() != atTerminal {
+				fmt.Printf("VERIF-INFRA: the state judged was not terminal (an operation returned afterwards without being granted a step): %s\n", msg)
+				msg = "VERIF-INFRA: state judged was not terminal: " + msg
+			}
+		}
+	}()
 	for _, t := range s.Tasks() {
 		if p := t.Panicked(); p != nil {
 			fail("C17: task %s panicked: %v", t.Name, p)
 			return
 		}
 	}
-	blocked := map[*sched.Task]bool{}
-	for _, t := range s.BlockedTasks() {
-		blocked[t] = true
-	}
 	for d, st := range ds {
-		check := func(kind string, ops []opPlan, res []*opResult, task *sched.Task) {
+		// liveInFlight: an operation of this kind is in flight with a live context (it may be
+		// the one inside the wrapper; the others of its kind wait for their turn behind it, and
+		// waiting for one's turn is not interrupted by the context)
+		liveInFlight := func(res []*opResult) bool {
+			for _, r := range res {
+				if r.started && !r.returned && !r.cancelled.Load() {
+					return true
+				}
+			}
+			return false
+		}
+		check := func(kind string, ops []opPlan, res []*opResult) {
 			for i, r := range res {
 				if !r.started {
 					continue
 				}
 				if !r.returned {
-					// in flight at quiescence: must be parked with a live context
+					// in flight at quiescence: must be parked with a live context, or wait for
+					// its turn behind an operation that is
+					if r.cancelled.Load() && liveInFlight(res) {
+						if c != nil {
+							c.Label("cancelled-while-waiting-for-its-turn")
+						}
+						continue
+					}
 					if r.cancelled.Load() {
-						st, fr := task.WaitInfo()
+						st, fr := r.task.WaitInfo()
 						fail("C17: %s %d of direction %d (%s, context %s) has not returned although its context is done; parked in [%s] at %s\n%s",
 							kind, i, d, flavours[sc.flavour], ctxNames[ops[i].ctx], st, fr, s.Describe())
 					}
@@ -409,30 +508,39 @@ func run(sc scenario, ch sched.Chooser, c *ev.Case, logf func(string, ...any)) (
 				}
 			}
 		}
-		check("write", sc.dirs[d].writes, st.wres, st.wtask)
-		check("read", sc.dirs[d].reads, st.rres, st.rtask)
+		check("write", sc.dirs[d].writes, st.wres)
+		check("read", sc.dirs[d].reads, st.rres)
 		if msg != "" {
 			return
 		}
-		if blocked[st.wtask] && blocked[st.rtask] {
-			fail("C17: direction %d: a writer and a reader with live contexts are both parked, no data moves\n%s", d, s.Describe())
+		if liveInFlight(st.wres) && liveInFlight(st.rres) {
+			fail("C17: direction %d: a write and a read with live contexts are both parked, no data moves\n%s", d, s.Describe())
 			return
 		}
 		// stream accounting
+		// operations of one kind are served one at a time, in the order in which they return
 		var sent, got bytes.Buffer
-		var inflight []byte
+		var inflights [][]byte
+		bySeq := func(res []*opResult) []int {
+			var idx []int
+			for i, r := range res {
+				if r.returned {
+					idx = append(idx, i)
+				}
+			}
+			sort.Slice(idx, func(a, b int) bool { return res[idx[a]].seq < res[idx[b]].seq })
+			return idx
+		}
+		for _, i := range bySeq(st.wres) {
+			sent.Write(payload(d, i, sc.dirs[d].writes[i].size)[:st.wres[i].n])
+		}
 		for i, r := range st.wres {
-			full := payload(d, i, sc.dirs[d].writes[i].size)
-			if r.returned {
-				sent.Write(full[:r.n])
-			} else if r.started {
-				inflight = full
+			if r.started && !r.returned {
+				inflights = append(inflights, payload(d, i, sc.dirs[d].writes[i].size))
 			}
 		}
-		for _, r := range st.rres {
-			if r.returned {
-				got.Write(r.data)
-			}
+		for _, i := range bySeq(st.rres) {
+			got.Write(st.rres[i].data)
 		}
 		g, w := got.Bytes(), sent.Bytes()
 		// net.Pipe moves a byte only into a Read call and a Write reports what
@@ -443,9 +551,13 @@ func run(sc scenario, ch sched.Chooser, c *ev.Case, logf func(string, ...any)) (
 				d, flavours[sc.flavour], len(w), len(g), w, g)
 			return
 		}
-		if !bytes.Equal(g[:len(w)], w) || !bytes.HasPrefix(inflight, g[len(w):]) {
-			fail("C17: direction %d (%s): bytes received differ from the bytes reported written plus the write in flight: received %q, reported written %q, in flight %q",
-				d, flavours[sc.flavour], g, w, inflight)
+		prefixOfOne := len(g) == len(w) // at most one of the writes in flight is inside the wrapped call
+		for _, f := range inflights {
+			prefixOfOne = prefixOfOne || bytes.HasPrefix(f, g[len(w):])
+		}
+		if !bytes.Equal(g[:len(w)], w) || !prefixOfOne {
+			fail("C17: direction %d (%s): bytes received differ from the bytes reported written plus a write in flight: received %q, reported written %q, in flight %q",
+				d, flavours[sc.flavour], g, w, inflights)
 			return
 		}
 	}
@@ -460,11 +572,11 @@ type chooserFunc func(s *sched.Session, en []*sched.Task) *sched.Task
 
 func (f chooserFunc) Pick(s *sched.Session, en []*sched.Task) *sched.Task { return f(s, en) }
 
-const ruleC17 = "rapid-drawn program over a net.Pipe wrapped by netctx.Conn, connctx or netctx.PacketConn (1..2 directions, per direction 1..4 writes of 1..40 bytes and 1..4 reads, each with its own context: live / cancelled before the call / cancelled by a canceller task / deadline in the past) and a rapid-drawn schedule over every lock, channel, select, WaitGroup and go statement of the yield-instrumented wrapper files, with the wrappers' watcher goroutines adopted as tasks; a recording decorator remembers the deadlines set on the wrapped conn; oracle at quiescence: every operation whose context is done has returned, 0 bytes => the context's error, bytes received == bytes reported written (+ prefix of a write in flight), no read and write of one direction both parked, and after every returned operation the wrapped conn carries no deadline; non-trivial = a cancellation landed while its operation was in progress; distinct by hash of program + step trace"
+const ruleC17 = "rapid-drawn program over a net.Pipe wrapped by netctx.Conn, connctx or netctx.PacketConn (1..2 directions, per direction 1..4 writes of 1..40 bytes and 1..4 reads, in a quarter of the programs issued by two tasks per end so that operations of one kind wait for their turn behind each other, each with its own context: live / cancelled before the call / cancelled by a canceller task / deadline in the past) and a rapid-drawn schedule over every lock, channel, select, WaitGroup and go statement of the yield-instrumented wrapper files, with the wrappers' watcher goroutines adopted as tasks; a recording decorator remembers the deadlines set on the wrapped conn; oracle at quiescence: every operation whose context is done has returned (unless it waits for its turn behind an operation of its kind with a live context), 0 bytes => the context's error, bytes received == bytes reported written (+ prefix of a write in flight), no read and write of one direction both parked, and after every returned operation the wrapped conn carries no deadline; non-trivial = a cancellation landed while its operation was in progress; distinct by hash of program + step trace"
 
 func TestC17Schedules(t *testing.T) {
 	r := ev.New("C17", "schedules", ruleC17)
-	r.Essential = []string{"cancel/during", "cancel/before", "cancel/after", "flavour/connctx", "flavour/netctx.PacketConn", "flavour/netctx.Conn"}
+	r.Essential = []string{"cancel/during", "cancel/before", "cancel/after", "flavour/connctx", "flavour/netctx.PacketConn", "flavour/netctx.Conn", "second-task-on-one-end", "cancelled-while-waiting-for-its-turn"}
 	r.MinForEssential = 300
 	r.Assume("net.Pipe (stdlib) is the wrapped connection and is taken as atomic; yield granularity = synchronisation operations of netctx/conn.go, netctx/packetconn.go, connctx/connctx.go")
 	r.Check(t, func(t *rapid.T, c *ev.Case) {
